@@ -233,11 +233,17 @@ func runC05(s *kernel.Sim) {
 	}
 	yaml := fd.YAML()
 	// textual mutations of the YAML
-	textual := []int{8, 1, 1, 1, 1}
+	textual := []int{8, 1, 1, 1, 1, 1, 1}
 	if plausible {
 		textual = []int{1}
 	}
 	switch tp.Weighted(textual) {
+	case 5: // a processor entry whose body was deleted (YAML null)
+		yaml = strings.Replace(yaml, "processors:\n", "processors:\n  leftEmpty:\n", 1)
+		mutations = append(mutations, "processor-entry-without-body")
+	case 6: // a processor entry with an empty mapping, a connection without ends
+		yaml = strings.Replace(yaml, "processors:\n", "processors:\n  hollow: {}\n", 1)
+		mutations = append(mutations, "processor-entry-empty-mapping")
 	case 1: // duplicate processor key
 		yaml = strings.Replace(yaml, "processors:\n", "processors:\n  p1:\n    processor: Filter\n    parameters:\n      - key: header\n        value: x-dup=1\n", 1)
 		mutations = append(mutations, "duplicate-key-p1")
